@@ -7,6 +7,7 @@ import Compass.Drv.C18
 import Compass.Drv.C20
 import Compass.Drv.C16
 import Compass.Drv.C08
+import Compass.Drv.C14
 
 /-- `driver <prop>`: reads one case per line on stdin, prints the model's canonical output line -/
 partial def loop (h : IO.FS.Stream) (out : IO.FS.Stream) (f : String → String) : IO Unit := do
@@ -34,6 +35,7 @@ def dispatch : String → Option (String → String)
   | "C20" => some Compass.Drv.C20.run
   | "C16" => some Compass.Drv.C16.run
   | "C08" => some Compass.Drv.C08.run
+  | "C14" => some Compass.Drv.C14.run
   | _ => none
 
 def main (args : List String) : IO UInt32 := do
